@@ -4,11 +4,13 @@ use crate::Ctx;
 pub mod common;
 pub mod run;
 pub mod c10;
+pub mod c12;
 
 pub fn dispatch(ctx: &mut Ctx) {
     match ctx.prop.as_str() {
         "RUN" => run::generic(ctx),
         "C10" => c10::check(ctx),
+        "C12" => c12::check(ctx),
         other => {
             ctx.case("harness", "", "viol", serde_json::json!({"what": format!("unknown property {}", other)}));
         }
